@@ -54,7 +54,7 @@ def one(name):
 
 def main():
     names = sys.argv[1:] or sorted(n for n in os.listdir(os.path.join(VERIF, "seeded")) if os.path.exists(os.path.join(VERIF, "seeded", n, "meta.json")))
-    with ThreadPoolExecutor(max_workers=4) as ex:
+    with ThreadPoolExecutor(max_workers=int(os.environ.get("SEED_REFRESH_JOBS", "4"))) as ex:
         for name, fired in ex.map(one, names):
             if fired is None:
                 print("%-10s patch does not apply" % name)
